@@ -101,6 +101,15 @@ func (e *Enc) EncodeTop() {
 	for n, v := range e.paramTerms {
 		env.vars[n] = v
 	}
+	// activation-local ghosts start at their zero value
+	for name, g := range e.w.CS.Ghosts {
+		if g.Local {
+			k, srt := e.ghostKey(name)
+			z := e.zeroOfSort(srt, nil)
+			e.assume(tTrue, T(SBool, "(= %s ((as const %s) %s))", e.heapGet(st0, k).S, e.heapSort[k], z.S))
+			e.heapGet(e.entryState, k)
+		}
+	}
 	// global invariants (assumed; established by init, see DESIGN 2.3)
 	for _, gi := range e.w.CS.GInvs {
 		genv := &CEnv{e: e, vars: map[string]TT{}, cur: st0, old: e.entryState, pkg: gi.Pkg, guard: tTrue}
